@@ -9,7 +9,7 @@ it can print).
 
 The iterator idioms `block.stmts().next()` / `block.stmts().count()` are replaced, wherever they occur in these functions, by wrappers
 with a sequence contract (class A: Block::stmts yields the statements of the block in order)."""
-from gen import Unit, Fn, Item, Raw, RawFile, Hole, After, Before, Loop, Between, DebugAsserts
+from gen import Unit, Fn, Item, Raw, RawFile, Hole, After, Before, Loop, Between, DebugAsserts, InlineClosure
 from common import *
 
 TU = "src/formatters/trivia_util.rs"
@@ -19,7 +19,7 @@ BLK = "src/formatters/block.rs"
 STM = "src/formatters/stmt.rs"
 FUN = "src/formatters/functions.rs"
 
-SPEC = r"""
+SPEC_A = r"""
 // ---- the statements of a block ----
 pub open spec fn block_len(b: &Block) -> nat { block_stmts(b).len() + if block_last(b) is Some { 1nat } else { 0nat } }
 // the statement kinds format_stmt_no_trivia prints (the others are a panic there)
@@ -43,46 +43,35 @@ pub assume_specification<T> [Punctuated::<T>::len] (p: &Punctuated<T>) -> (r: us
 
 // ---- if statements: the blocks they carry ----
 #[verifier::external_type_specification] #[verifier::external_body] pub struct ExElseIf(ElseIf);
-pub uninterp spec fn if_block(n: &If) -> Block;
-pub uninterp spec fn if_else_ifs(n: &If) -> Option<nat>;     // the number of elseif branches (None: no list)
-pub uninterp spec fn if_else(n: &If) -> Option<Block>;
-pub uninterp spec fn if_else_tok(n: &If) -> bool;
 pub open spec fn census(b: &Block) -> (nat, bool) { (block_stmts(b).len(), block_last(b) is Some) }
+pub open spec fn strip_top(s: Skel) -> Skel { match s { Skel::Paren(i) => *i, _ => s } }
+// a condition loses at most its one top-level pair of parentheses (remove_condition_parentheses), then only redundant ones
+pub open spec fn same_condition(e: Expression, r: Expression) -> bool { erase(skel(r)) == erase(strip_top(skel(e))) || erase(skel(r)) == erase(skel(e)) }
 // C02 at the level of statements: the same number of statements in every block of the `if`, the same branches
 pub open spec fn same_census(a: &If, r: &If) -> bool {
-    census(&if_block(a)) == census(&if_block(r)) && if_else_ifs(a) == if_else_ifs(r)
-    && (if_else(a) is Some) == (if_else(r) is Some) && (if_else(a) is Some ==> census(&if_else(a)->Some_0) == census(&if_else(r)->Some_0))
-    && if_else_tok(a) == if_else_tok(r)
+    census(&n_if_block(a)) == census(&n_if_block(r))
+    && (n_if_else_if(a) is Some) == (n_if_else_if(r) is Some) && (n_if_else_if(a) is Some ==> n_if_else_if(a)->Some_0@.len() == n_if_else_if(r)->Some_0@.len())
+    && (n_if_else_block(a) is Some) == (n_if_else_block(r) is Some) && (n_if_else_block(a) is Some ==> census(&n_if_else_block(a)->Some_0) == census(&n_if_else_block(r)->Some_0))
+    && (n_if_else_token(a) is Some) == (n_if_else_token(r) is Some)
 }
-pub open spec fn if_rest_same(a: &If, r: &If) -> bool { if_block(r) == if_block(a) && if_else_ifs(r) == if_else_ifs(a) && if_else(r) == if_else(a) && if_else_tok(r) == if_else_tok(a) }
-pub assume_specification [If::block] (n: &If) -> (r: &Block) ensures *r == if_block(n);
-pub assume_specification [If::else_if] (n: &If) -> (r: Option<&Vec<ElseIf>>) ensures (r is Some) == (if_else_ifs(n) is Some), r is Some ==> r->Some_0@.len() == if_else_ifs(n)->Some_0;
-pub assume_specification [If::else_block] (n: &If) -> (r: Option<&Block>) ensures (r is Some) == (if_else(n) is Some), r is Some ==> *r->Some_0 == if_else(n)->Some_0;
-pub assume_specification [If::else_token] (n: &If) -> (r: Option<&TokenReference>) ensures (r is Some) == if_else_tok(n);
-pub assume_specification [If::if_token] (n: &If) -> (r: &TokenReference);
-pub assume_specification [If::then_token] (n: &If) -> (r: &TokenReference);
-pub assume_specification [If::end_token] (n: &If) -> (r: &TokenReference);
-pub assume_specification [If::condition] (n: &If) -> (r: &Expression);
-pub assume_specification [If::with_if_token] (n: If, t: TokenReference) -> (r: If) ensures if_rest_same(&n, &r);
-pub assume_specification [If::with_then_token] (n: If, t: TokenReference) -> (r: If) ensures if_rest_same(&n, &r);
-pub assume_specification [If::with_end_token] (n: If, t: TokenReference) -> (r: If) ensures if_rest_same(&n, &r);
-pub assume_specification [If::with_condition] (n: If, e: Expression) -> (r: If) ensures if_rest_same(&n, &r);
-pub assume_specification [If::with_block] (n: If, b: Block) -> (r: If)
-    ensures if_block(&r) == b, if_else_ifs(&r) == if_else_ifs(&n), if_else(&r) == if_else(&n), if_else_tok(&r) == if_else_tok(&n);
-pub assume_specification [If::with_else_if] (n: If, e: Option<Vec<ElseIf>>) -> (r: If)
-    ensures if_else_ifs(&r) == (if e is Some { Some(e->Some_0@.len()) } else { None }), if_block(&r) == if_block(&n), if_else(&r) == if_else(&n), if_else_tok(&r) == if_else_tok(&n);
-pub assume_specification [If::with_else] (n: If, b: Option<Block>) -> (r: If)
-    ensures if_else(&r) == b, if_block(&r) == if_block(&n), if_else_ifs(&r) == if_else_ifs(&n), if_else_tok(&r) == if_else_tok(&n);
-pub assume_specification [If::with_else_token] (n: If, t: Option<TokenReference>) -> (r: If)
-    ensures if_else_tok(&r) == (t is Some), if_block(&r) == if_block(&n), if_else_ifs(&r) == if_else_ifs(&n), if_else(&r) == if_else(&n);
-pub assume_specification [<If as Clone>::clone] (n: &If) -> (r: If) ensures r == *n;
-
+@@IFSPECS@@
 // ---- function bodies ----
-pub uninterp spec fn fb_block(f: &FunctionBody) -> Block;
+pub open spec fn fb_block(f: &FunctionBody) -> Block { n_fb_block(f) }
+#[verifier::external_type_specification] #[verifier::external_body] pub struct ExParameter(full_moon::ast::Parameter);
+#[cfg(feature = "luau")] #[verifier::external_type_specification] #[verifier::external_body] pub struct ExTypeSpecifier(full_moon::ast::luau::TypeSpecifier);
+#[cfg(feature = "luau")] #[verifier::external_type_specification] #[verifier::external_body] pub struct ExGenericDeclaration(full_moon::ast::luau::GenericDeclaration);
+@@FBSPECS@@
 pub uninterp spec fn fb_paren_trail_comments(f: &FunctionBody) -> bool;   // a comment behind the `)` of the parameters
 pub uninterp spec fn fb_end_lead_comments(f: &FunctionBody) -> bool;      // a comment in front of `end`
-pub assume_specification [FunctionBody::block] (f: &FunctionBody) -> (r: &Block) ensures *r == fb_block(f);
 """
+
+FB_SPECS = node_specs("FunctionBody", "n_fb", [("parameters_parentheses", "ContainedSpan", "-"), ("parameters", "Punctuated<full_moon::ast::Parameter>", "-"), ("block", "Block", "ref"), ("end_token", "TokenReference", "-")]) + """
+#[cfg(feature = "luau")] pub assume_specification [FunctionBody::with_generics] (n: FunctionBody, v: Option<full_moon::ast::luau::GenericDeclaration>) -> (r: FunctionBody) ensures n_fb_block(&r) == n_fb_block(&n);
+#[cfg(feature = "luau")] pub assume_specification [FunctionBody::with_type_specifiers] (n: FunctionBody, v: Vec<Option<full_moon::ast::luau::TypeSpecifier>>) -> (r: FunctionBody) ensures n_fb_block(&r) == n_fb_block(&n);
+#[cfg(feature = "luau")] pub assume_specification [FunctionBody::with_return_type] (n: FunctionBody, v: Option<full_moon::ast::luau::TypeSpecifier>) -> (r: FunctionBody) ensures n_fb_block(&r) == n_fb_block(&n);
+"""
+SPEC = SPEC_A.replace("@@FBSPECS@@", FB_SPECS).replace("@@IFSPECS@@", node_specs("If", "n_if", [("if_token", "TokenReference", "-"), ("condition", "Expression", "ref"), ("then_token", "TokenReference", "-"), ("block", "Block", "ref"),
+    ("else_if", "Vec<ElseIf>", "opt"), ("else_token", "TokenReference", "opt"), ("else_block", "Block", "opt", "with_else"), ("end_token", "TokenReference", "-")]))
 
 WRAP = r"""
 #[verifier::external_body] pub fn first_stmt(b: &Block) -> (r: Option<&Stmt>)
@@ -90,7 +79,12 @@ WRAP = r"""
 #[verifier::external_body] pub fn paren_close_trailing_comments(f: &FunctionBody) -> (r: bool) ensures r == fb_paren_trail_comments(f) { unimplemented!() }
 #[verifier::external_body] pub fn end_leading_comments(f: &FunctionBody) -> (r: bool) ensures r == fb_end_lead_comments(f) { unimplemented!() }
 #[verifier::external_body] pub fn format_else_ifs(ctx: &Context, if_node: &If, shape: Shape) -> (r: Option<Vec<ElseIf>>)
-    ensures (r is Some) == (if_else_ifs(if_node) is Some), r is Some ==> r->Some_0@.len() == if_else_ifs(if_node)->Some_0 { unimplemented!() /* if_node.else_if().map(|l| l.iter().map(|e| format_else_if(ctx, e, shape)).collect()) */ }
+    ensures (r is Some) == (n_if_else_if(if_node) is Some), r is Some ==> r->Some_0@.len() == n_if_else_if(if_node)->Some_0@.len() { unimplemented!() /* if_node.else_if().map(|l| l.iter().map(|e| format_else_if(ctx, e, shape)).collect()) */ }
+// format_function_body: the parts that are closures / iterator chains over parameters and Luau annotations (none of them touches the block)
+#[cfg(feature = "luau")] #[verifier::external_body] pub fn format_optional_generics(ctx: &Context, function_body: &FunctionBody, shape: Shape) -> Option<full_moon::ast::luau::GenericDeclaration> { unimplemented!() }
+#[verifier::external_body] pub fn format_parameters_either(ctx: &Context, function_body: &FunctionBody, shape: Shape, multiline: bool) -> (ContainedSpan, Punctuated<full_moon::ast::Parameter>) { unimplemented!() }
+#[cfg(feature = "luau")] #[verifier::external_body] pub fn format_specifiers(ctx: &Context, function_body: &FunctionBody, shape: Shape, multiline_params: bool) -> (Vec<Option<full_moon::ast::luau::TypeSpecifier>>, Option<full_moon::ast::luau::TypeSpecifier>) { unimplemented!() }
+#[verifier::external_body] pub fn first_line_trailing<R>(ctx: &Context, function_body: &FunctionBody, parameters_parentheses: ContainedSpan, return_type: R, singleline_function: bool) -> (ContainedSpan, R) { unimplemented!() }
 #[verifier::external_body] pub fn stmt_count(b: &Block) -> (r: usize) ensures r == block_stmts(b).len() { unimplemented!() /* b.stmts().count() */ }
 """
 
@@ -107,6 +101,8 @@ def items():
         Raw(WRAP, module="verif_collapse"),
         Fn(TU, "contains_comments", mode="stub", sig_edits=[VN], contract="ensures r == has_comments(node.key()),",
            note="Node::tokens().any(token_contains_comments): defines has_comments"),
+        Fn(TU, "contains_singleline_comments", mode="stub", sig_edits=[VN], contract="ensures r ==> has_comments(node.key()),",
+           note="the same search restricted to line comments: finding one means there is a comment (the converse does not hold)"),
         Fn(TU, "is_last_stmt_simple", mode="stub", note="decides on the kind of `return` values only; no statement is counted here"),
         Fn(TU, "is_block_empty", contract="""
     ensures r == (block_len(block) == 0), //# C02.empty_block_is_empty
@@ -115,8 +111,8 @@ def items():
     ensures r ==> one_simple_statement(block), //# C02.simple_block_is_one_statement
 """, edits=stmts_holes()),
         Fn(STM, "is_if_guard", contract="""
-    ensures r ==> if_else_ifs(if_node) is None && if_else(if_node) is None && one_simple_statement(&if_block(if_node)), //# C02.if_guard_is_one_statement
-            r ==> !has_comments(NodeKey::Other(other_key(if_block(if_node)))), //# C03.if_guard_has_no_comments
+    ensures r ==> n_if_else_if(if_node) is None && n_if_else_block(if_node) is None && one_simple_statement(&n_if_block(if_node)), //# C02.if_guard_is_one_statement
+            r ==> !has_comments(NodeKey::Other(other_key(n_if_block(if_node)))), //# C03.if_guard_has_no_comments
 """),
         Fn(CTX, "should_collapse_simple_functions", impl_of="Context", mode="stub", proved_in="ctx"),
         Fn(CTX, "should_collapse_simple_conditionals", impl_of="Context", mode="stub", proved_in="ctx"),
@@ -152,17 +148,19 @@ impl UpdateTrivia for LastStmt {
         Item(GEN, "enum", "EndTokenType"),
         Fn(GEN, "format_symbol", mode="stub"),
         Fn(GEN, "format_end_token", mode="stub"),
-        Fn(EX, "format_expression", mode="stub", proved_in="expr"),
-        Fn(EX, "hang_expression_trailing_newline", mode="stub"),
-        Fn(STM, "remove_condition_parentheses", mode="stub", proved_in="stmt"),
+        Fn(EX, "format_expression", mode="stub", proved_in="expr", contract="requires wf(skel(*expression)), ensures erase(skel(r)) == erase(skel(*expression)),"),
+        Fn(EX, "hang_expression_trailing_newline", mode="stub", proved_in="expr", contract="requires wf(skel(*expression)), ensures erase(skel(r)) == erase(skel(*expression)),"),
+        Fn(STM, "remove_condition_parentheses", mode="stub", proved_in="stmt", contract="ensures skel(r) == strip_top(skel(expression)),"),
         Fn(STM, "should_indent_further", mode="stub", sig_edits=[Hole("<'a>(trivia: impl Iterator<Item = &'a Token>, shape: Shape)", "(trivia: Vec<Token>, shape: Shape)", kind="proxy", why="iterator parameter")]),
         Fn(STM, "format_stmt_no_trivia", mode="stub", proved_in="block", contract="requires simple_stmt_kind(*stmt),",
            note="its second precondition (the statement is formatted normally: not ignored, in range) is not carried here: an `if` that reaches format_if is itself formatted normally and an ignore comment in its body makes is_if_guard false (argued, not proved)"),
         Fn(BLK, "format_last_stmt_no_trivia", mode="stub"),
         Fn(BLK, "format_block", mode="stub", proved_in="block", contract="ensures census(&r) == census(block),"),
         Fn(STM, "format_if", contract="""
-    requires if_else_tok(if_node) == (if_else(if_node) is Some),   // parsed input: an `else` token comes with an else block
+    requires (n_if_else_token(if_node) is Some) == (n_if_else_block(if_node) is Some),   // parsed input: an `else` token comes with an else block
+             wf(skel(n_if_condition(if_node))),
     ensures same_census(if_node, &r), //# C02.format_if_keeps_statements
+            same_condition(n_if_condition(if_node), n_if_condition(&r)), //# C02.format_if_keeps_condition
 """, edits=[
             DebugAsserts(),
             Hole('const IF_LEN: usize = "if ".len();', "let IF_LEN: usize = hole_usize();", why="str::len in a const: a width, used for layout only"),
@@ -178,6 +176,35 @@ impl UpdateTrivia for LastStmt {
             Hole("should_indent_further(else_token.leading_trivia(), shape)", "should_indent_further(hole_vec_token(), shape)", why="iterator argument; chooses a comment indentation only"),
             Hole("if_node.block().stmts().next()", "verif_collapse::first_stmt(if_node.block())", count=None, kind="wrapper", why="Block::stmts() is an iterator: its first item"),
         ]),
+        Raw("""
+impl UpdateTrailingTrivia for Stmt {
+    open spec fn same_sem_t(&self, r: &Self) -> bool { true }
+    open spec fn trail_ok(&self, t: FormatTriviaType, r: &Self) -> bool { true }
+    open spec fn not_open(&self) -> bool { other_closed(*self) }
+    #[verifier::external_body] fn update_trailing_trivia(&self, trailing_trivia: FormatTriviaType) -> (r: Self) { unimplemented!() }
+}
+impl UpdateTrailingTrivia for LastStmt {
+    open spec fn same_sem_t(&self, r: &Self) -> bool { true }
+    open spec fn trail_ok(&self, t: FormatTriviaType, r: &Self) -> bool { true }
+    open spec fn not_open(&self) -> bool { other_closed(*self) }
+    #[verifier::external_body] fn update_trailing_trivia(&self, trailing_trivia: FormatTriviaType) -> (r: Self) { unimplemented!() }
+}
+"""),
+        Fn(TU, "spans_multiple_lines", mode="stub", sig_edits=[Hole("<T: std::fmt::Display>", "<T>", kind="proxy", why="std::fmt::Display bound dropped on the stub")]),
+        Fn(FUN, "format_function_body", contract="""
+    ensures census(&n_fb_block(&r)) == census(&n_fb_block(function_body)), //# C02.function_body_keeps_statements
+""", edits=[
+            Between("let multiline_params = {", "should_parameters_format_multiline(ctx, function_body, shape, should_collapse)\n    };", "let multiline_params = hole_bool();", why="closures over the parameters and their Luau type specifiers: decides the layout of the parameter list only"),
+            Between("let generics = function_body", ".map(|generic_declaration| format_generic_declaration(ctx, generic_declaration, shape));", "let generics = verif_collapse::format_optional_generics(ctx, function_body, shape);", why="closure over the optional Luau generics"),
+            Hole("let shape = shape + generics.as_ref().map_or(0, |x| x.to_string().len());", "let shape = shape + hole_usize();", why="Display width of the generics"),
+            Between("let (parameters_parentheses, formatted_parameters) = match multiline_params {", "format_singleline_parameters(ctx, function_body, shape),\n        ),\n    };", "let (parameters_parentheses, formatted_parameters) = verif_collapse::format_parameters_either(ctx, function_body, shape, multiline_params);", why="generic list formatter taking a formatter function value / the single-line parameter formatter"),
+            Between("let (type_specifiers, return_type) = {", ".map(|return_type| format_type_specifier(ctx, return_type, shape)),\n        )\n    };", "let (type_specifiers, return_type) = verif_collapse::format_specifiers(ctx, function_body, shape, multiline_params);", why="closures over the Luau type specifiers and the return type"),
+            InlineClosure("create_normal_block"),
+            Hole('const PARENS_LEN: usize = "()".len();', "let PARENS_LEN: usize = hole_usize();", why="str::len in a const: a width, used for layout only"),
+            Between("let block_shape = block_shape\n                + type_specifiers.iter().fold(0, |acc, x| {", "+ return_type.as_ref().map_or(0, |x| x.to_string().len());", "let block_shape = block_shape + hole_usize();", why="Display widths of the Luau annotations"),
+            Hole("function_body.block().stmts().next()", "verif_collapse::first_stmt(function_body.block())", count=None, kind="wrapper", why="Block::stmts() is an iterator: its first item"),
+            Between("let (parameters_parentheses, return_type) = loop {", "            return_type,\n        );\n    };", '#[cfg(feature = "luau")] let (parameters_parentheses, return_type) = verif_collapse::first_line_trailing(ctx, function_body, parameters_parentheses, return_type, singleline_function);\n    #[cfg(not(feature = "luau"))] let (parameters_parentheses, return_type) = verif_collapse::first_line_trailing(ctx, function_body, parameters_parentheses, (), singleline_function);', why="a loop used as a block with cfg-dependent breaks: appends the trailing whitespace of the first line to `)` or to the return type"),
+        ]),
     ]
     return its
 
@@ -187,6 +214,8 @@ LABELS = {
     "C03.if_guard_has_no_comments": dict(props=["C03"], text="is_if_guard: an `if` that is collapsed has no comment in its body (the one-line form replaces the statement's trivia)"),
     "C02.collapsed_function_is_one_statement": dict(props=["C02", "C07"], text="should_collapse_function_body: a function body that is collapsed is empty or one statement of a printable kind"),
     "C03.collapsed_function_has_no_comments": dict(props=["C03", "C01"], text="should_collapse_function_body: a function body that is collapsed has no comment in the body, behind `)` or in front of `end`"),
+    "C02.function_body_keeps_statements": dict(props=["C02", "C07"], text="format_function_body: on one line or not, the body of the result has the same number of statements and the same presence of a last statement as the input's (the one-line branch rebuilds the block from its single statement; its `unreachable!` and the precondition of format_stmt_no_trivia follow from should_collapse_function_body)"),
+    "C02.format_if_keeps_condition": dict(props=["C02"], text="format_if: the condition is the input's, modulo its top-level parentheses and redundant ones (one-line, single-line and hanging layout)"),
     "C02.format_if_keeps_statements": dict(props=["C02"], text="format_if: collapsed or not, the result has the same number of statements (and the same presence of a last statement) in its body and in its else block, and the same elseif / else branches"),
     "C02.simple_block_is_one_statement": dict(props=["C02", "C07"], text="is_block_simple: a block that counts as simple consists of exactly one statement — a last statement, or one assignment / local assignment / call / goto (the kinds the one-line path can print) — and nothing else"),
 }
